@@ -63,37 +63,20 @@ impl Block {
     ///
     /// `new_line_positions` is used for locating a starting position of a line in the source code.
     fn content_intersects_with_any(&self, line_changes: &[LineChange]) -> bool {
-        line_changes
-            .binary_search_by(|line_change: &LineChange| {
-                if Self::intersects_with_line_change(&self.content_position_range, line_change) {
-                    Ordering::Equal
-                } else if line_change.line < self.content_position_range.start.line {
-                    Ordering::Less
-                } else {
-                    Ordering::Greater
-                }
-            })
-            .is_ok()
+        // A linear scan: "intersects" is not monotone over the sorted changes (a change on the
+        // content's first line may miss the content), so a binary search can skip a real match.
+        line_changes.iter().any(|line_change| {
+            Self::intersects_with_line_change(&self.content_position_range, line_change)
+        })
     }
 
     /// Whether the `Block`'s start tag intersects with any of the **ordered** `line_changes`.
     ///
     /// `new_line_positions` is used for locating a starting position of a line in the source code.
     fn start_tag_intersects_with_any(&self, line_changes: &[LineChange]) -> bool {
-        line_changes
-            .binary_search_by(|line_change: &LineChange| {
-                if Self::intersects_with_line_change_inclusive(
-                    &self.start_tag_position_range,
-                    line_change,
-                ) {
-                    Ordering::Equal
-                } else if line_change.line < self.start_tag_position_range.start().line {
-                    Ordering::Less
-                } else {
-                    Ordering::Greater
-                }
-            })
-            .is_ok()
+        line_changes.iter().any(|line_change| {
+            Self::intersects_with_line_change_inclusive(&self.start_tag_position_range, line_change)
+        })
     }
 
     /// Whether the `position_range` intersects with the given `line_change`.
